@@ -369,7 +369,7 @@ func (n *Node) SentinelEvent(channel, msg string) int {
 	cnt := 0
 	var ts []*Conn
 	for t := range s.ps().chans[channel] {
-		if t.node == n {
+		if t.node == n && !t.closed.Load() { // closed connections stay in the registry; they receive (and count for) nothing
 			ts = append(ts, t)
 		}
 	}
